@@ -1,7 +1,23 @@
 /-
 C13 — clones are faithful and fully independent of their originals.
 Property theorems about the executable model `IrVerif.Clone` (Model/Clone.lean); the helper
-development (invariant of the cloner, Hoare rules) is in Lemmas/Clone.lean.
+developments are in Lemmas/Clone*.lean: Clone (invariant of the cloner, Hoare rules), CloneFrame /
+CloneFrame2 (frame lemma per editing call, first and extended alphabet), CloneSim / CloneSer
+(simulation, observation function), CloneScope (outer-scope values), CloneResidue (failed clones),
+CloneTotal (total-correctness simulation of the cloner by the scope walker).
+
+Proved (all heaps, all graphs, all histories of the model): freshness, closedness of ownership,
+back pointers, node inputs and device annotations (`C13_closed*`, `C13_closed_sharding*` under
+`devLocalW`), purity of cloning and of failed clones, the frame theorems over the 31-call alphabet
+`Edit` and the 44-call alphabet `Edit2` (`*_ext`; strict separation, i.e. clones made with
+`allow_outer_scope_values=False`), `functionalize`, observational equality, graph-level progress
+and the exact error (`C13_clone_succeeds`, `C13_clone_error_exact`, `C13_clone_raises_iff`, hypothesis
+= verdict of the decidable scope walker), and that the value map is a bijection
+(`C13_value_map_bijection`).
+Not proved (differential / oracle only): editing calls outside `Edit2`, `Graph.sort` on graphs
+whose nodes hold subgraphs, `deep_copy=True` copying the objects stored in `meta`, in-place state
+of shared `Attr` objects (D114) and shared tensors (D113), walker theorems for `Function.clone` /
+`Model.clone`, non-local sharding specs (D340).
 -/
 import IrVerif.Lemmas.Clone
 import IrVerif.Lemmas.CloneFrame
@@ -1392,6 +1408,36 @@ theorem C13_value_map_bijection {w : World} {fuel : Nat} {allow : Bool} {g : Nat
   intro p hp
   obtain ⟨a, vs0, vs', b, c, _⟩ := hT.vals p hp
   exact ⟨⟨vs0, b⟩, a, vs', c⟩
+
+/-- **C13_function_clone_succeeds** (`Function.clone`): if the walker accepts the body and the
+    graph-valued defaults of the attribute declarations (one value map for all of them, as the
+    code has), the function is cloned. -/
+theorem C13_function_clone_succeeds {w : World} {fuel f : Nat} {A : Sc}
+    (h : funcVerdict fuel w f = .ok A) : ∃ f' w', run (funcClone fuel f) w = (.ok f', w') := by
+  have := Total.funcClone_verdict fuel w f
+  rw [h] at this
+  exact this
+
+/-- **C13_function_clone_raises_iff** (`Function.clone`): whenever the walker makes a claim,
+    `Function.clone` raises iff the walker answers `err (raised ..)`, with that very error. -/
+theorem C13_function_clone_raises_iff {w : World} {fuel f : Nat}
+    (hreg : ∀ why, funcVerdict fuel w f ≠ .irregular why) (why : String) :
+    (run (funcClone fuel f) w).1 = .error (.raised why) ↔ funcVerdict fuel w f = .err (.raised why) := by
+  have hv := Total.funcClone_verdict fuel w f
+  cases hc : funcVerdict fuel w f with
+  | ok A =>
+    rw [hc] at hv
+    obtain ⟨f', w', h2⟩ := hv
+    rw [h2]
+    constructor <;> intro h <;> cases h
+  | err e =>
+    rw [hc] at hv
+    simp only at hv
+    rw [hv]
+    constructor
+    · intro h; cases h; rfl
+    · intro h; cases h; rfl
+  | irregular why' => exact absurd hc (hreg why')
 
 def verdictKind : WRes Sc → String
   | .ok _ => "ok"
